@@ -461,3 +461,30 @@ contract(
     ensures=["len(result[0]) == n and len(result[1]) == n"]
     + drawn_ok("result[0]", "result[1]", "n"),
 )
+
+# ---- re-evaluating stored samples (used when resuming: the density table is
+# ---- not pickled and is recomputed from the saved proposals) -----------------
+contract(
+    IP, "ImportanceFlowProposal.compute_meta_proposal_samples",
+    props=["C03"], self_shape="ISProposalC03", log_domain=True,
+    params={"samples": INS_ARR},
+    requires=[f"self.flow.n_models == {NW} - 1", f"{NW} >= 2",
+              f"self.level_count == {NW} - 2",
+              f"forall(p, 0, {NW} - 1, not isnan({W}[p - 1]))",
+              "forall(k, 0, len(self.flow.models), "
+              "not self.flow.models[k]['training'])"],
+    raises={"RuntimeError": f"isnan({W}[self.level_count])"},
+    may_raise={"ValueError": None},
+    returns="Tuple(Seq(Real),Tbl(QRow))",
+    ensures=[
+        "len(result[0]) == len(samples) and len(result[1]) == len(samples)",
+        f"forall(i, 0, len(samples), ncol(result[1][i]) == {NW})",
+        "forall(i, 0, len(samples), col(result[1][i], 0) == 0)",
+        # every column is the saved proposal re-evaluated at the sample
+        f"forall2(i, len(samples), j, {NW}, implies(j >= 1, "
+        "col(result[1][i], j) == LPX(j - 1, Rf(samples[i]['x'])) + "
+        "RJ(samples[i]['x'])))",
+        "forall(i, 0, len(samples), E(result[0][i]) == "
+        + MIX.format(w=W, row="result[1][i]") + ")",
+    ],
+)
